@@ -428,6 +428,12 @@ pub trait ServerAccountStorage: StorageEventLogs {
     fn rename_account(&self, name: &str) -> (r: Result<()>);
     fn write_vault(&self, vault: &Vault) -> (r: Result<()>);
     fn write_login_vault(&self, vault: &Vault) -> (r: Result<()>);
+    /// `read_vault` / `read_login_vault` (traits.rs:44,51): read the stored vault; `&self`, no log is touched
+    fn read_vault(&self, folder_id: &VaultId) -> (r: Result<Vault>);
+    fn read_login_vault(&self) -> (r: Result<Vault>);
+    /// `delete_account` (traits.rs:109): removes the account with all its logs — NO promise is made
+    /// about any log or the cache afterwards (weakest contract)
+    fn delete_account(&mut self) -> (r: Result<()>);
     fn set_folder_flags(&self, folder_id: &VaultId, flags: VaultFlags) -> (r: Result<()>);
     /// `replace_folder` (R9: `&self` in the source; it rewrites the folder's stored events
     /// through a NEW event-log handle: `FolderEventLog::new_folder(..)`,
